@@ -292,3 +292,23 @@ Fixpoint slice_elems (t : gty) : list gty :=
   end.
 Definition max_esz (B : bindings) : N :=
   fold_right N.max 0 (map (gsize B) (flat_map (fun b => slice_elems (b_type b)) B)).
+
+(* every slice element type below t (not through named types) is at most E bytes *)
+Definition slices_ok (B : bindings) (E : N) (t : gty) : bool :=
+  forallb (fun e => gsize B e <=? E) (slice_elems t).
+Definition acc_ok (B : bindings) (E : N) (a : access) : bool :=
+  match snd a with Some (t, _) => slices_ok B E t | None => true end.
+Definition stmt_ok (B : bindings) (E : N) (s : stmt) : bool :=
+  match s with
+  | Field a => acc_ok B E a
+  | IfBit _ _ body => forallb (acc_ok B E) body
+  | _ => true
+  end.
+Definition ubody_ok (B : bindings) (E : N) (u : ubody) : bool :=
+  match u with
+  | UPlain ss => forallb (stmt_ok B E) ss
+  | USwitch cs => forallb (fun c => forallb (stmt_ok B E) (snd c)) cs
+  end.
+Definition binding_ok (B : bindings) (E : N) (b : binding) : bool :=
+  slices_ok B E (b_type b) && ubody_ok B E (b_unmarshal b).
+Definition wf_bindings (B : bindings) (E : N) : bool := forallb (binding_ok B E) B.
